@@ -38,7 +38,7 @@ for d in sorted(os.listdir(os.path.join(V, 'seeded'))):
         other_only += 1
     else:
         missed += 1
-summary_line = (f"{total} live seeded breaks (5 rounds; {obsolete} obsolete): {own} caught by the quick check of their own property, "
+summary_line = (f"{total} live seeded breaks (7 rounds; {obsolete} obsolete): {own} caught by the quick check of their own property, "
                 f"{other_only} caught only by the check of a related property (a history-dependent break written against a "
                 f"stateless statement, or a slip in the decode stage written against a statement about plain bodies), {missed} not caught. Column 4 lists every check that was run against the break.")
 out = [summary_line, ""] + out
